@@ -20,6 +20,8 @@ def jobs(tier):
         j = C02.op_job("allocfail_%s_v4" % nm, entry, td, te, 4, 1500, prop="ASSERT_C18",
                        extra=["ALLOC_FAIL"] + (["TL_SHAPE=1", "TL_NRECS=2"] if nm == "srcremove" else []))
         j.desc = "k-th allocation fails (k symbolic, 0 = none): " + j.desc
+        if nm in ("add", "remove"):
+            j.solver = ["--sat-solver", "cadical"]  # MiniSat stalls on these two (portfolio measured: 375 s lost)
         J.append(j)
     # a node with three records: the only shape in which the undo branch of a failed shrink can misplace an element
     for nm, entry in (("remove", "harness_remove"), ("srcremove", "harness_src_remove")):
